@@ -36,7 +36,8 @@ def atom_vars(a):
 
 
 class Sem:
-    def __init__(self, st, delta=None, canonical=True):
+    def __init__(self, st, delta=None, canonical=True, own_only=False):
+        self.own_only = own_only      # premises read the `_own` copies of member relations (C17: rule instances that rely on inherited tuples are left out)
         self.st = st
         self.delta = delta
         self.canonical = canonical
@@ -58,12 +59,17 @@ class Sem:
             raise Unsupported("relation %s of the source program has no tables in the generated model" % name)
         return self.st.s.rels[n]
 
-    def in_table(self, rel, row, ages):
+    def in_table(self, rel, row, ages, own=False):
         """literal: concrete row literally present (ages subset of new/old)"""
         c = self.c
         out = F
         for a in ages:
             ix = rel.full(a)
+            if own:
+                for jx in rel.indices:
+                    if jx.age == a and jx.eqs is None and len(jx.order) == rel.arity and jx.suffix == "_own":
+                        ix = jx
+                        break
             out = c.or2(out, self.st.table(ix.field).cell(ix.project(row)))
         return out
 
@@ -108,7 +114,7 @@ class Sem:
         for a in prem:
             if a[0] == "rel":
                 rel = self.rel(a[1])
-                g = c.and2(g, self.in_table(rel, tuple(sigma[v] for v in a[2]), ages))
+                g = c.and2(g, self.in_table(rel, tuple(sigma[v] for v in a[2]), ages, own=self.own_only))
             elif a[0] == "type":
                 ts = self.st.s.rels[snake(a[2])]
                 g = c.and2(g, self.in_table(ts, (sigma[a[1]],), ages))
@@ -170,3 +176,12 @@ def inv_sn(st, delta, rules, canonical=True):
 
 def closed(st, rules):
     return Sem(st, None, True).obligations(rules, ("new", "old"), False, "closed")
+
+
+def closed_own(st, rules):
+    """C17 with the role of known finding F5 left out: the inheritance axioms (rules named inherit_*) in full, every
+    other rule only for premises that hold through own (asserted or derived, not inherited) member tuples"""
+    inh = [r for r in rules if r[0].startswith("inherit_")]
+    rest = [r for r in rules if not r[0].startswith("inherit_")]
+    return Sem(st, None, True).obligations(inh, ("new", "old"), False, "closed") + \
+        Sem(st, None, True, own_only=True).obligations(rest, ("new", "old"), False, "closed-own")
